@@ -1171,6 +1171,14 @@ impl ConfigState {
                 .map_err(|decode_error| StateError::RemoveCertificate(decode_error.to_string()))?,
         );
 
+        // parse the new certificate before touching the old one, so that a
+        // rejected replacement leaves the old certificate in place
+        let new_fingerprint = Fingerprint(
+            calculate_fingerprint(replace.new_certificate.certificate.as_bytes()).map_err(
+                |fingerprint_err| StateError::ReplaceCertificate(fingerprint_err.to_string()),
+            )?,
+        );
+
         self.certificates
             .get_mut(&replace_address)
             .ok_or(StateError::NotFound {
@@ -1178,12 +1186,6 @@ impl ConfigState {
                 id: replace.address.to_string(),
             })?
             .remove(&old_fingerprint);
-
-        let new_fingerprint = Fingerprint(
-            calculate_fingerprint(replace.new_certificate.certificate.as_bytes()).map_err(
-                |fingerprint_err| StateError::ReplaceCertificate(fingerprint_err.to_string()),
-            )?,
-        );
 
         self.certificates
             .get_mut(&replace_address)
